@@ -1,39 +1,40 @@
 #!/bin/bash
-# usage: try_seed.sh <worktree-id> <check-id>...   : confirm a mutant from /tmp/wt/<id>/_out and run checks against it
+# usage: try_seed.sh <worktree-id> <check-id>...   : confirm a mutant (only /tmp/wt/<id>/_out/patch.diff is trusted) and run checks against it
 set -u
 id=$1; shift
-wt=/tmp/wt/$id; out=$wt/_out
+out=/tmp/wt/$id/_out
+S=/tmp/wt/scratch_$id; rm -rf $S; mkdir -p $S/orig $S/mut
 export GOPROXY=off GOSUMDB=off; unset GOFLAGS
-cd $wt || exit 2
+git -C /repo archive HEAD | tar -x -C $S/orig; cp -r $S/orig/. $S/mut/
+(cd $S/mut && git apply --unsafe-paths -p1 $out/patch.diff 2>/dev/null || patch -s -p1 < $out/patch.diff) || { echo "patch does not apply"; exit 2; }
+echo "== patch: $(grep -c '^[-+][^-+]' $out/patch.diff) changed lines in: $(grep '^+++ ' $out/patch.diff | tr '\n' ' ')"
 echo "== build+tests on mutated tree"
-go build ./... && go test -vet=off -count=1 ./... 2>&1 | tail -8
-run_demo() { # prints stdout + exit status
+(cd $S/mut && go build ./... && go test -vet=off -count=1 ./... 2>&1 | grep -v 'no test files' | tail -8)
+run_demo() { # $1 = tree; prints everything observable
+  local T=$1
+  (cd $T && go build -o $T/borno_bin . ) || return
   if [ -f $out/demo.sh ]; then
-    go build -o /tmp/wt/borno_$id . || return
-    (cd $out && timeout 60 bash ./demo.sh /tmp/wt/borno_$id 2>&1); echo "demo.sh exit=$?"
+    (cd $out && timeout 60 bash ./demo.sh $T/borno_bin 2>&1); echo "demo.sh exit=$?"
   elif [ -f $out/demo_test.go ]; then
     pkg=$(grep -m1 '^package ' $out/demo_test.go | awk '{print $2}'); pkg=${pkg%_test}
     [ "$pkg" = main ] && pkg=.
-    cp $out/demo_test.go $wt/$pkg/zz_demo_test.go
-    (cd $wt && go test -vet=off -count=1 ./$pkg 2>&1 | grep -v '^ok' | sed 's/[0-9.]*s$//' | head -40); rm -f $wt/$pkg/zz_demo_test.go
+    cp $out/demo_test.go $T/$pkg/zz_demo_test.go
+    (cd $T && go test -vet=off -count=1 ./$pkg 2>&1 | sed 's/[0-9.]*s$//' | head -40); rm -f $T/$pkg/zz_demo_test.go
   elif [ -f $out/demo.bn ]; then
-    go build -o /tmp/wt/borno_$id . || return
-    if [ -f $out/stdin.txt ]; then timeout 20 /tmp/wt/borno_$id $out/demo.bn < $out/stdin.txt > /tmp/wt/demo_$id.out 2>/tmp/wt/demo_$id.err; else timeout 20 /tmp/wt/borno_$id $out/demo.bn > /tmp/wt/demo_$id.out 2>/tmp/wt/demo_$id.err </dev/null; fi
-    echo "exit=$?"; cat /tmp/wt/demo_$id.out; echo "--stderr"; cat /tmp/wt/demo_$id.err
+    if [ -f $out/stdin.txt ]; then timeout 20 $T/borno_bin $out/demo.bn < $out/stdin.txt > $S/o 2>$S/e; else timeout 20 $T/borno_bin $out/demo.bn > $S/o 2>$S/e </dev/null; fi
+    echo "exit=$?"; cat $S/o; echo "--stderr"; head -c 1500 $S/e
   fi
 }
-echo "== demo on mutated"; run_demo > /tmp/wt/demo_$id.mut
-git stash -q
-echo "== demo on original"; run_demo > /tmp/wt/demo_$id.orig
-git stash pop -q
-diff /tmp/wt/demo_$id.orig /tmp/wt/demo_$id.mut > /tmp/wt/demo_$id.diff && echo "DEMO: NO DIFFERENCE" || { echo "DEMO differs:"; cat /tmp/wt/demo_$id.diff | head -30; }
-echo "== expected.txt"; cat $out/expected.txt 2>/dev/null | head -20
+run_demo $S/mut > /tmp/wt/demo_$id.mut
+run_demo $S/orig > /tmp/wt/demo_$id.orig
+diff /tmp/wt/demo_$id.orig /tmp/wt/demo_$id.mut > /tmp/wt/demo_$id.diff && echo "DEMO: NO DIFFERENCE" || { echo "DEMO differs (orig < > mutated):"; head -24 /tmp/wt/demo_$id.diff; }
+rm -rf $S
 echo "== checks against mutated /repo"
 git -C /repo status --short | grep -v '^??' && { echo "/repo dirty"; exit 2; }
 git -C /repo apply $out/patch.diff || exit 2
 cd /verif
 for c in "$@"; do
-  ./check $c quick > /tmp/wt/check_${id}_$c.log 2>&1; echo "check $c exit=$?"; grep -E 'VIOLATION|FAIL|KNOWN' /tmp/wt/check_${id}_$c.log | head -12
+  ./check $c quick > /tmp/wt/check_${id}_$c.log 2>&1; echo "check $c exit=$?"; grep -E 'failed obligation|ENGINE' /tmp/wt/check_${id}_$c.log | head -8
 done
 git -C /repo checkout -- .
 git -C /repo status --short
